@@ -175,6 +175,15 @@ def check(case, ctx):
             ctx.fail(name + ":target-rotation", "%s changes from %.9g to %.9g when Y is rotated (fixed-alpha ridge)" % (name, a3, a4))
         ctx.count("invariance_comparisons", 2)
     idx = base_idx
+    # --- the global functions forward every optional argument (scaler, estimator, indices) to the pointwise ones ----------
+    from skmatter.preprocessing import StandardFlexibleScaler as _SFS
+    sub_idx = {"train_idx": tr, "test_idx": te[:6]}
+    for name, gl, pw, extra in (("GRE", GRE, pGRE, {}), ("GRD", GRD, pGRD, {}), ("LRE", LRE, pLRE, {"n_local_points": nloc})):
+        with ctx.lib(name + "-user-arguments"):
+            ga = gl(X, Y, scaler=_SFS(column_wise=True), estimator=Ridge(alpha=case["ridge_alpha"], fit_intercept=False), **extra, **sub_idx)
+            pa = np.asarray(pw(X, Y, scaler=_SFS(column_wise=True), estimator=Ridge(alpha=case["ridge_alpha"], fit_intercept=False), **extra, **sub_idx))
+        ctx.close(name + ":global==rms(pointwise)(user scaler+estimator)", ga, float(np.sqrt(np.mean(pa ** 2))), 1e-10 * max(1.0, ga),
+                  "global vs RMS of pointwise with a user scaler and estimator")
     # --- training-set bound ----------------------------------------------------------------------------------
     p = np.asarray(case["sub"])[: max(fx + 2, n // 2)]
     with ctx.lib("GRE-train"):
